@@ -988,21 +988,31 @@ class FlagEngine:
             if body.tys[decl["ty"]] != "bool" or l == 0 or l <= body.arg_count:
                 continue
             defs = prov.defs.get(l, ())
-            if defs and all(k == "rv" and p.k == "use" and p.ops[0].const_int() in (0, 1) and lhs.is_local()
-                            for lhs, k, p, b, _ in defs) and (decl.get("name") or include_temps):
+            const_def = lambda d: d[1] == "rv" and d[2].k == "use" and d[2].ops[0].const_int() in (0, 1) and d[0].is_local()
+            if defs and all(const_def(d) for d in defs) and (decl.get("name") or include_temps):
+                self.flags.append(l)
+            elif defs and decl.get("name") and any(const_def(d) for d in defs) and all(d[0].is_local() for d in defs):
+                # a named flag that is also assigned computed values (`ok = check(..)`): those assignments make it unknown
                 self.flags.append(l)
         self.index = {l: i for i, l in enumerate(self.flags)}
+        # blocks entered after a call that wrote a flag directly
+        self.call_defs = {}
+        for b in body.blocks:
+            t = b.term
+            if t.k == "call" and t.dest is not None and t.dest.is_local() and t.dest.local in self.index and t.target is not None:
+                self.call_defs.setdefault(t.target, []).append(t.dest.local)
 
     def initial(self):
         return tuple(None for _ in self.flags)
 
     def apply_stmts(self, bidx, vals):
         vals = list(vals)
+        for l in self.call_defs.get(bidx, ()):
+            vals[self.index[l]] = None
         for s in self.body.blocks[bidx].stmts:
-            if s.k == "a" and s.lhs.is_local() and s.lhs.local in self.index and s.rv.k == "use":
-                c = s.rv.ops[0].const_int()
-                if c in (0, 1):
-                    vals[self.index[s.lhs.local]] = bool(c)
+            if s.k == "a" and s.lhs.is_local() and s.lhs.local in self.index:
+                c = s.rv.ops[0].const_int() if s.rv.k == "use" else None
+                vals[self.index[s.lhs.local]] = bool(c) if c in (0, 1) else None
         return tuple(vals)
 
     def switch_flag(self, bidx):
